@@ -364,7 +364,7 @@ def determine(note1, note2, shorthand=False):
         elif x < y:
             if not shorthand:
                 return "augmented unison"
-            return "#1"
+            return "#" * (y - x) + "1"
         elif x - y == 1:
             if not shorthand:
                 return "minor unison"
